@@ -1,11 +1,12 @@
 PROPERTY = "C07"
 LEVEL = "proof"
-LEAN_MODULES = ["CifModel.Props.C07", "CifModel.Props.ReviewC07"]
+LEAN_MODULES = ["CifModel.Props.C07", "CifModel.Props.C07Parser", "CifModel.Model.ParserTrace", "CifModel.Model.ParserStoreOps", "CifModel.Lemmas.ParserTrace", "CifModel.Lemmas.ParserValues", "CifModel.Props.ReviewC07"]
 REQUIRED = ["CifModel.C07_serialize_roundtrip", "CifModel.C07_serialize_buffer", "CifModel.C07_buf_write_terminates",
             "CifModel.C07_buf_write_ok", "CifModel.C07_default_cap_ok", "CifModel.C07_columns_roundtrip",
             "CifModel.C07_schema_link", "CifModel.C07_numb_in_list", "CifModel.C07_numb_in_list_full", "CifModel.C07_constructible_wf", "CifModel.C07_constructible_columns", "CifModel.C07_numb_produced_consistent",
             "CifModel.C07_constructible_roundtrip", "CifModel.C07_store_read", "CifModel.C07_store_read_loop_routes",
             "CifModel.C07_store_read_delivers_cells", "CifModel.C07_stored_read_identical", "CifModel.C07_refused_not_stored", "CifModel.C07_numb_in_list_partial", "CifModel.C07_numb_list_roundtrip",
+            "CifModel.C07_parser_route", "CifModel.C07_parser_values_numbFree", "CifModel.C07_numbFree_constructible", "CifModel.Model.Parser.values_numbFree", "CifModel.Model.Parser.storeTrace_wf", "CifModel.Model.Parser.parseT_out", "CifModel.Model.Parser.parse_replay",
             "CifModel.C07_cex_buf_write_pinned", "CifModel.C07_cex_buf_write_cap1", "CifModel.C07_cex_empty_digits"]
 GEN = ["ErrCodes", "ValueCols"]
 FAMILIES = ["ser", "storeval"]
@@ -36,8 +37,18 @@ ASSUMPTIONS = [
     "buildEntries) but ASSUMED here for every table that reaches the serialiser; family ser compares the real bytes",
 ]
 PARTIAL = [
-    "route `parser` (cif_parse storing what it read): NO theorem composes the parser model (its own Cif tree, property C01/C03) with "
-    "the store model; carried by correspondence only (family storeval route parse incl. values of 70 000 - 300 000 units)",
+    "route `parser` (cif_parse storing what it read): C07_parser_route (Props/C07Parser.lean) — the parser model stores through exactly two "
+    "API functions, cif_container_set_value and cif_loop_add_packet (Model/ParserTrace.lean records every store call of every production; "
+    "Lemmas/ParserTrace: forgetting the trace gives Model.Parser.parse exactly, C03_parser_trace; the executor of family `parse` counts the "
+    "same calls of the real parser, in order, and compares them on every request); for every recorded call of every parse (any input, "
+    "policy, options, initial content), in every store state satisfying the invariant, the value is read back identical (composition "
+    "with C07_stored_read_identical).  The hypotheses of that theorem are discharged for the parser: set_value is only recorded under a valid "
+    "data name, and no value the parser hands to the store contains a number object (C07_parser_values_numbFree, from "
+    "Lemmas/ParserValues.values_numbFree: what parse_value / parse_list / parse_table return, under every policy), hence every such value is "
+    "constructible (C07_numbFree_constructible).  LEFT as hypothesis: C07_fits (serialised size below the address space).  NOT proved: that the "
+    "STATE in which the parser makes the call satisfies the store invariant and that the call succeeds there — that is the composition of "
+    "the whole history with the store model (C03_parser_store_refines_full, see C03), which the model driver executes on every request with "
+    "a fresh target (sto=ok) but which is not proved.  Family storeval route parse (values of 70 000 - 300 000 units) carries the end-to-end claim",
     "read path cif_walk and the assembly of packets by cif_pktitr_next_packet: the theorems stop at the SQL statement both read "
     "(GET_LOOP_VALUES_SQL returns a row for the cell and only rows carrying the value: ReadsBack.loopValuesSql); that next_packet / "
     "walk hand exactly these row values to the caller is C06 / C14 territory and is carried here by correspondence (storeval reads "
